@@ -2,6 +2,7 @@ package main
 
 import (
 	"encoding/json"
+	"time"
 
 	"verif/harness/lib"
 )
@@ -13,6 +14,9 @@ import (
 // final re-run of the chosen case reports the failure that was seen.
 
 var failed = map[string]lib.Result{}
+
+// hangShrunk: a hanging case has been shrunk already in this process
+var hangShrunk bool
 
 func caseKey(c *Case) string {
 	b, _ := json.Marshal(c)
@@ -142,6 +146,11 @@ func caseCands(c *Case) []*Case {
 		d.RtMax = 0
 		out = append(out, d)
 	}
+	if c.Conc || c.Twice {
+		d := clone(c)
+		d.Conc, d.Twice = false, false
+		out = append(out, d)
+	}
 	return append(out, graphCands(c, func(c *Case) *Graph { return c.G })...)
 }
 
@@ -172,14 +181,22 @@ func normKeys(g *Graph) {
 
 func (engine) Shrink(ci any, stillFails func(any) bool) any {
 	cur := ci.(*Case)
+	var deadline time.Time
 	if r, ok := failed[caseKey(cur)]; ok && r.Sig == "hang" {
-		return cur // every attempt would wait for the watchdog
+		// every attempt that still hangs waits for the (by now short) watchdog: only the first hang of the
+		// process is shrunk, for 15 s at most
+		if hangShrunk {
+			return cur
+		}
+		hangShrunk = true
+		deadline = time.Now().Add(15 * time.Second)
 	}
 	budget := 150
 	for progress := true; progress && budget > 0; {
 		progress = false
 		for _, d := range caseCands(cur) {
-			if budget--; budget < 0 {
+			if budget--; budget < 0 || (!deadline.IsZero() && time.Now().After(deadline)) {
+				budget = -1
 				break
 			}
 			if d.G != nil {
